@@ -152,10 +152,13 @@ def confirm_hang(derive, item, tries=3, limit=20):
 # (derive, shape, body, position) and every pair of positions is tried, not sampled
 RELEVANT = {
     "error": ["(source)", "(backtrace)", "(not(source))", "(not(backtrace))", "(ignore)", "(source, backtrace)", ""],
-    "from": ["", "(skip)", "(ignore)", "(forward)", "(u8)", "(u8, u16)", "((u8, u16))", "(())", "((u8,))", "((u8, u16, u32))", "(u8 u16)", "(forward skip)"],
+    "from": ["", "(skip)", "(ignore)", "(forward)", "(u8)", "(u8, u16)", "((u8, u16))", "(())", "((u8,))", "((u8, u16, u32))", "(u8 u16)", "(forward skip)",
+             # redundant parentheses / nesting around listed types
+             "(((u8, u16)))", "((((u8, u16))))", "((u8))", "(((u8), (u16)))", "((u8, (u16)))", "([u8; 2])", "(&'static u8)", "((&'static u8, u16))", "(types::X)"],
     "into": ["", "(skip)", "(ignore)", "(owned)", "(ref)", "(ref_mut)", "(owned, ref, ref_mut)", "(u8)", "(ref(u8))", "((u8, u16))", "(())", "((u8,))", "(owned(u8) u16)",
-             "(owned(u8) ref(u8))", "(u8 u16)", "(owned(u8), u16)", "(ref ref_mut)"],
-    "as_ref": ["", "(skip)", "(ignore)", "(forward)", "(u8)", "(str, [u8])", "(())", "(u8 u16)", "(forward u8)"],
+             "(owned(u8) ref(u8))", "(u8 u16)", "(owned(u8), u16)", "(ref ref_mut)",
+             "(((u8, u16)))", "((u8))", "(owned((u8)))", "(ref(((u8, u16))))", "(u8, ref)", "(ref, u8)"],
+    "as_ref": ["", "(skip)", "(ignore)", "(forward)", "(u8)", "(str, [u8])", "(())", "(u8 u16)", "(forward u8)", "((u8))", "(((u8, u16)))"],
     "as_mut": ["", "(skip)", "(ignore)", "(forward)", "(u8)"],
     "deref": ["", "(ignore)", "(forward)"], "deref_mut": ["", "(ignore)", "(forward)"],
     "index": ["", "(ignore)"], "index_mut": ["", "(ignore)"],
